@@ -540,3 +540,157 @@ func harnessDir() string {
 	}
 	return "/verif/harness"
 }
+
+// TestC13MigrationCrash — a kill during the migrating Open leaves the old or the new format, never a mix.
+func TestC13MigrationCrash(t *testing.T) {
+	rec := vt.For("C13")
+	rec.Rule("migration under SIGKILL: a version-0/1 database (realistic ids, 0-300 nonces, nodes with trial balances and peer sets) is opened by a child process that is killed after a generated delay (0-30 ms) - before, during or after the migrating transaction; the parent then inspects the raw keys: either the old version with EVERY key unchanged, or the current version with every non-nonce key unchanged and no nonce key left; then a normal Open must succeed and preserve the non-nonce keys; non-trivial = kill landed before the child reported READY; distinct by (version, counts, delay)")
+	child, err := crashChildBinary()
+	if err != nil {
+		t.Fatal(err)
+	}
+	defer os.Remove(child)
+	rapid.Check(t, func(rt *rapid.T) {
+		dir := tempDir("c13-migcrash-")
+		defer removeAll(dir)
+		db := filepath.Join(dir, "db")
+		os.MkdirAll(db, 0o755)
+		nNodes := rapid.SampledFrom([]int{1, 5, 120}).Draw(rt, "nodes")
+		nNonces := rapid.SampledFrom([]int{0, 3, 150, 300}).Draw(rt, "nonces")
+		version := rapid.SampledFrom([]int{0, 1, 1}).Draw(rt, "version")
+		// the child uses badger.DefaultOptions; populate with the same options so that table formats agree
+		st, err := badgerstore.Open(badger.DefaultOptions(db).WithLogger(nil).WithSyncWrites(false))
+		if err != nil {
+			rt.Fatalf("open: %v", err)
+		}
+		for i := 0; i < nNodes; i++ {
+			st.SetNode(store.Node{ID: store.NodeID(migNodeID(i)), LastSeen: time.Now(), IsHost: i%2 == 0})
+			st.AddNodeBalance(store.NodeID(migNodeID(i)), big.NewInt(int64(100+i)))
+			st.UpdateNodePeers(store.NodeID(migNodeID(i)), []string{migNodeID((i + 1) % nNodes)}, 1)
+		}
+		for i := 0; i < nNonces; i++ {
+			st.CheckAndSaveNonce(migNonceID(i), time.Now().UnixNano())
+		}
+		st.Close()
+		setRawVersionDefault(rt, db, version)
+		before := dumpKeysDefault(rt, db)
+		delay := time.Duration(rapid.IntRange(0, 30000).Draw(rt, "delayMicros")) * time.Microsecond
+		cmd := exec.Command(child, db, "-", "migrate-only")
+		stdout, _ := cmd.StdoutPipe()
+		if err := cmd.Start(); err != nil {
+			rt.Fatalf("start child: %v", err)
+		}
+		ready := make(chan bool, 1)
+		go func() {
+			sc := bufio.NewScanner(stdout)
+			r := false
+			for sc.Scan() {
+				if sc.Text() == "READY" {
+					r = true
+				}
+			}
+			ready <- r
+		}()
+		time.Sleep(delay)
+		cmd.Process.Signal(syscall.SIGKILL)
+		cmd.Wait()
+		wasReady := <-ready
+		after := dumpKeysDefault(rt, db)
+		var v int
+		if raw, ok := after["vip:version"]; ok {
+			gobDecode([]byte(raw), &v)
+		}
+		nonceLeft, diffs := 0, []string{}
+		for k, val := range before {
+			if k == "vip:version" {
+				continue
+			}
+			w, ok := after[k]
+			if strings.HasPrefix(k, "vip:nonce:") {
+				if ok {
+					nonceLeft++
+				}
+				continue
+			}
+			if !ok {
+				diffs = append(diffs, "lost "+k)
+			} else if w != val {
+				diffs = append(diffs, "changed "+k)
+			}
+		}
+		if len(diffs) > 0 {
+			rt.Fatalf("kill after %s during Open of a version-%d database: %d non-nonce keys damaged: %.300v", delay, version, len(diffs), diffs)
+		}
+		switch v {
+		case version:
+			if nonceLeft != nNoncesIn(before) {
+				rt.Fatalf("database still at version %d but %d of %d nonce keys are gone (half-applied migration)", v, nNoncesIn(before)-nonceLeft, nNoncesIn(before))
+			}
+		case 2:
+			if nonceLeft != 0 {
+				rt.Fatalf("database at version 2 but %d nonce keys of the old format are left (half-applied migration)", nonceLeft)
+			}
+		default:
+			rt.Fatalf("database version is %d after a kill during the migration from %d", v, version)
+		}
+		st2, err := badgerstore.Open(badger.DefaultOptions(db).WithLogger(nil))
+		if err != nil {
+			rt.Fatalf("Open after the kill: %v", err)
+		}
+		if b, err := st2.GetNodeBalance(store.NodeID(migNodeID(0))); err != nil || b.Credit.Int64() != 100 {
+			rt.Fatalf("after kill + reopen the balance of node 0 is %v (err %v), want 100", b.Credit.String(), err)
+		}
+		st2.Close()
+		rec.Case(fmt.Sprintf("migcrash|v%d|%d|%d|%s", version, nNodes, nNonces, delay), !wasReady, []string{"migration-crash", fmt.Sprintf("migration-crash:killed-before-ready:%v", !wasReady), fmt.Sprintf("migration-crash:found-version:%d", v)}, func() interface{} {
+			return map[string]interface{}{"kind": "SIGKILL during migrating Open", "from_version": version, "nodes": nNodes, "nonces": nNonces, "kill_delay": delay.String(), "child_finished_open": wasReady, "version_found": v}
+		})
+	})
+}
+
+func nNoncesIn(m map[string]string) int {
+	n := 0
+	for k := range m {
+		if strings.HasPrefix(k, "vip:nonce:") {
+			n++
+		}
+	}
+	return n
+}
+
+func dumpKeysDefault(rt *rapid.T, dir string) map[string]string {
+	db, err := badger.Open(badger.DefaultOptions(dir).WithLogger(nil))
+	if err != nil {
+		rt.Fatalf("raw open: %v", err)
+	}
+	defer db.Close()
+	out := map[string]string{}
+	db.View(func(txn *badger.Txn) error {
+		it := txn.NewIterator(badger.DefaultIteratorOptions)
+		defer it.Close()
+		for it.Rewind(); it.Valid(); it.Next() {
+			v, _ := it.Item().ValueCopy(nil)
+			out[string(it.Item().KeyCopy(nil))] = string(v)
+		}
+		return nil
+	})
+	return out
+}
+
+func setRawVersionDefault(rt *rapid.T, dir string, version int) {
+	db, err := badger.Open(badger.DefaultOptions(dir).WithLogger(nil))
+	if err != nil {
+		rt.Fatalf("raw open: %v", err)
+	}
+	defer db.Close()
+	err = db.Update(func(txn *badger.Txn) error {
+		if version == 0 {
+			return txn.Delete([]byte("vip:version"))
+		}
+		var buf bytes.Buffer
+		gobEncode(&buf, version)
+		return txn.Set([]byte("vip:version"), buf.Bytes())
+	})
+	if err != nil {
+		rt.Fatalf("set version: %v", err)
+	}
+}
